@@ -389,7 +389,8 @@ def load_known(prop):
 def is_oom_text(msg):
     """Allocation failure (address-space limit) is outside every property's quantifier: inconclusive, never a violation."""
     m = (msg or "").lower()
-    return "out of memory" in m or "memory allocation of" in m or "cannot allocate" in m or "capacity overflow" in m
+    return ("out of memory" in m or "memory allocation of" in m or "cannot allocate" in m or "capacity overflow" in m
+            or "alignedsize must not exceed" in m)  # single object larger than the heap's maximum object size (4 GiB)
 
 
 def crash_signature(cr):
